@@ -26,7 +26,7 @@ ASSUMPTIONS = [
     "crashes and hangs are judged by C13, not here (counted as skipped)",
     "register names are matched case-insensitively; lower-case registers are not generated on purpose",
 ]
-HEALTH = {"accepted": 0.03, "class:invalid_by_construction": 0.01}
+HEALTH = {"accepted": 0.03, "class:invalid_by_construction": 4000}
 EXHAUSTIVE = {"quick": ["invalid-by-construction operand list x all 139 mnemonics",
                         "every single-character deletion and duplication of 120 base operands x 12 mnemonics"],
               "thorough": ["invalid-by-construction operand list x all 139 mnemonics",
